@@ -309,6 +309,12 @@ const SEEDS: &[&str] = &[
     "let cols = {p = 1, q = 2}\nfrom t | derive cols | join (from u | derive cols) true",
     "let k = 5\nfrom t | derive {x = k} | join (from u | derive {x = k, y = k}) (==a) | select {t.x, u.y}",
     "let twice = e -> {p = e, q = e}\nfrom t | select (twice a) | join (from u | select (twice d)) (p == u.p)",
+    // a let-table with an unnamed column read from two relations (rejected today: "this table contains unnamed
+    // columns"; if ever accepted, each reader needs columns of its own)
+    "let t1 = (from u | select {a, u.d + 1})\nlet lo = (from t1 | filter a < 10)\nlet hi = (from t1 | filter a > 90)\nfrom lo | append hi",
+    "let t1 = (from u | group a (aggregate {sum d}))\nlet lo = (from t1 | filter a < 10)\nlet hi = (from t1 | filter a > 90)\nfrom lo | join hi (==a)",
+    "let t1 = (from u | select {a, d * 2})\nfrom t1 | append t1",
+    "let t1 = (from u | select {a, d * 2})\nfrom t1 | join r=(from t1 | take 2) (==a)",
     // reported by seeding agents on the unchanged tree (rounds 6 and 7)
     "from t | join c=(from u | select !{d}) (t.a == c.a) | select {c.d}",
     "let f = func r <relation> -> (from r | join (from r | select {a}) (==a))\nfrom t | f",
